@@ -5,10 +5,11 @@ from __future__ import annotations
 import ast
 import re
 
-from ..astutil import FuncNode, call_name, calls_in, dotted, own_exprs, test_atoms, unparse, walk_local
+from ..astutil import FuncNode, call_name, calls_in, dotted, own_exprs, parent_map, test_atoms, unparse, walk_local
 from ..cfg import no_exc
 from ..oracles import load, python_mutators
 from ..report import Registry, sub
+from ._helpers_rob_f2 import atom_exprs, by_name, env_of, guard_atom_exprs_at, guard_atoms_at, inline_local_calls
 
 R = Registry(
     "C38",
@@ -74,7 +75,30 @@ def _interfaces(ctx):
 
 def _decorators(ctx, fac):
     """{mutator name: (decorator FunctionDef, wrapper FunctionDef, underlying-param name)} of a
-    factory that returns `locals().copy()` minus popped names, or a dict display."""
+    factory that returns `locals().copy()` minus popped names, or a dict display.
+
+    The wrapper is returned with its local helpers inlined (closures of the factory that are not decorators, module
+    functions that deliver events): what a wrapper does is the same whether it is written in the wrapper or in a
+    helper it calls.  One (cached) object per wrapper, so that all rules share CFGs."""
+    cache = ctx.__dict__.setdefault("_c38_decorators", {})
+    if fac.key not in cache:
+        cache[fac.key] = _decorators_uncached(ctx, fac)
+    return cache[fac.key]
+
+
+def _is_decorator_shaped(d):
+    params = [a.arg for a in d.args.args]
+    r = [n for n in d.body if isinstance(n, ast.Return)]
+    inner = {st.name for st in d.body if isinstance(st, FuncNode)}
+    if len(params) != 1 or len(r) != 1:
+        return False
+    v = r[0].value
+    if isinstance(v, ast.Call) and len(v.args) == 1 and not v.keywords:
+        v = v.args[0]
+    return isinstance(v, ast.Name) and v.id in inner
+
+
+def _decorators_uncached(ctx, fac):
     fn = fac.node
     defs = {st.name: st for st in fn.body if isinstance(st, FuncNode)}
     rets = [st for st in fn.body if isinstance(st, ast.Return)]
@@ -121,16 +145,53 @@ def _decorators(ctx, fac):
             ctx.error(f"{fac.key}: statement not understood while computing the decorator dict: {unparse(st)[:80]}")
         ctx.require(seeded, f"{fac.key}: no `{var} = locals().copy()` snapshot found")
     out = {}
+    # an entry of the returned dict is applied to a collection class only when the class has a method of that name
+    # (_setup_canned_roles): a helper closure that is not a method name of the type is inert there
+    type_attrs = set()
+    for t in TYPES:
+        members, order_only = python_mutators(t)
+        type_attrs |= set(members) | set(order_only)
+    type_attrs |= {n for t_ in (list, set, dict) for n in dir(t_)}
+    module_fns = ctx.index.module(COLL).functions
+    ev_helpers = _event_helpers(ctx)
+    local_helpers = {n: d for n, d in defs.items() if not _is_decorator_shaped(d) and not _marks_param(d)}
+    mod_helpers = {}
+    for n, f in module_fns.items():
+        if n in ev_helpers or not isinstance(f.node, ast.FunctionDef):
+            continue
+        if any(call_name(c) in ev_helpers for c in calls_in(f.node)):
+            mod_helpers[n] = f.node
+
+    def helper(nm):
+        return local_helpers.get(nm) or mod_helpers.get(nm)
+
     for name, d in names.items():
+        if name not in type_attrs and not _is_decorator_shaped(d):
+            ctx.note(f"{fac.key}.{name}: helper closure left in the returned dict (not a method name of the type: never applied)")
+            continue
         params = [a.arg for a in d.args.args]
         ctx.require(len(params) == 1, f"{fac.key}.{name}: a decorator takes exactly the wrapped function")
         r = [n for n in d.body if isinstance(n, ast.Return)]
-        ctx.require(len(r) == 1 and isinstance(r[0].value, ast.Name), f"{fac.key}.{name}: decorator does not return a named wrapper")
+        ctx.require(len(r) == 1 and r[0].value is not None, f"{fac.key}.{name}: decorator does not return a named wrapper")
+        rv_ = r[0].value
+        if isinstance(rv_, ast.Call) and len(rv_.args) == 1 and not rv_.keywords and isinstance(rv_.func, ast.Name):
+            # `return _tidy(wrapper)`: a marking helper that hands its argument back
+            hf = defs.get(rv_.func.id) or (module_fns[rv_.func.id].node if rv_.func.id in module_fns else None)
+            p0 = hf.args.args[0].arg if hf is not None and hf.args.args else None
+            hrets = [x for x in walk_local(hf) if isinstance(x, ast.Return)] if hf is not None else []
+            ctx.require(hf is not None and hrets and all(isinstance(x.value, ast.Name) and x.value.id == p0 for x in hrets),
+                        f"{fac.key}.{name}: decorator returns `{unparse(rv_)}`, and {rv_.func.id} does not return its argument")
+            rv_ = rv_.args[0]
+        ctx.require(isinstance(rv_, ast.Name), f"{fac.key}.{name}: decorator does not return a named wrapper")
         inner = {st.name: st for st in d.body if isinstance(st, FuncNode)}
-        w = inner.get(r[0].value.id)
-        ctx.require(w is not None, f"{fac.key}.{name}: returned wrapper {r[0].value.id} is not defined in the decorator")
+        w = inner.get(rv_.id)
+        ctx.require(w is not None, f"{fac.key}.{name}: returned wrapper {rv_.id} is not defined in the decorator")
         wp = [a.arg for a in w.args.posonlyargs + w.args.args]
         ctx.require(wp and wp[0] == "self", f"{fac.key}.{name}: wrapper's first parameter is not self")
+        if local_helpers or mod_helpers:
+            w2, n_inl = inline_local_calls(w, by_name(helper))
+            if n_inl:
+                w = w2
         out[name] = (d, w, params[0])
     return out
 
@@ -351,18 +412,18 @@ def r3(ctx):
             g = ctx.cfg(w)
             if g.exit in g.reachable([g.entry], avoid=[i for r in rets for i in g.nodes_for(r)], edge_ok=no_exc):
                 problems.append(f"{op} can fall off the end (returns None: `x {op} y` would rebind x to None)")
-            pm = fac.module.parents()
+            pm = parent_map(w)
+            wenv = env_of(w)
             for r in ni:
-                par = pm.get(r)
-                good = (
-                    isinstance(par, ast.If) and r in par.body
-                    and isinstance(par.test, ast.UnaryOp) and isinstance(par.test.op, ast.Not)
-                    and isinstance(par.test.operand, ast.Call)
-                    and "binops_check" in (call_name(par.test.operand) or "")
-                    and len(par.test.operand.args) == 2
-                    and isinstance(par.test.operand.args[0], ast.Name) and par.test.operand.args[0].id == "self"
-                    and isinstance(par.test.operand.args[1], ast.Name) and par.test.operand.args[1].id in params
-                )
+                # the branch outcomes dominating the return (if/else either way round, flag locals) must include the
+                # FAILED operand check `_set_binops_check_*(self, <operand>)`
+                good = False
+                for e, pol in guard_atom_exprs_at(g, pm, r, wenv):
+                    if (pol is False and isinstance(e, ast.Call) and "binops_check" in (call_name(e) or "")
+                            and len(e.args) == 2 and not e.keywords
+                            and isinstance(e.args[0], ast.Name) and e.args[0].id == "self"
+                            and isinstance(e.args[1], ast.Name) and e.args[1].id in params):
+                        good = True
                 if not good:
                     problems.append("NotImplemented is returned outside a negated `_set_binops_check_*(self, <operand>)` test "
                                     "(receiver first, operand second)")
@@ -773,6 +834,26 @@ NOOP_BRANCHES = {
 }
 
 
+def _canon_atom(e, pol):
+    """(text, polarity) of a condition atom with comparisons in one canonical spelling: `a > b` == `b < a`,
+    `a <= b` == not `b < a`, `a is not b` == not `a is b`"""
+    if isinstance(e, ast.Compare) and len(e.ops) == 1:
+        l, r, op = e.left, e.comparators[0], e.ops[0]
+        if isinstance(op, ast.Gt):
+            return (f"{unparse(r)} < {unparse(l)}", pol)
+        if isinstance(op, ast.Lt):
+            return (f"{unparse(l)} < {unparse(r)}", pol)
+        if isinstance(op, ast.LtE):
+            return (f"{unparse(r)} < {unparse(l)}", not pol)
+        if isinstance(op, ast.GtE):
+            return (f"{unparse(l)} < {unparse(r)}", not pol)
+        if isinstance(op, ast.IsNot):
+            return (f"{unparse(l)} is {unparse(r)}", not pol)
+        if isinstance(op, ast.NotEq):
+            return (f"{unparse(l)} == {unparse(r)}", not pol)
+    return (unparse(e), pol)
+
+
 def _membership_outcome(test):
     """('present'-edge label) of a plain `x in self` / `x not in self` test, else None"""
     if isinstance(test, ast.Compare) and len(test.ops) == 1 and isinstance(test.ops[0], (ast.In, ast.NotIn)) \
@@ -827,6 +908,9 @@ def r6(ctx):
 
             markers = set(i for i, _ in under) | set(i for i, _ in ev["set_wo"])
             cut = set()
+            wenv = env_of(w)
+            noop_atoms = {_canon_atom(ast.parse(txt, mode="eval").body, pol)
+                          for (wk, txt, pol) in NOOP_BRANCHES if wk == fac.key + "." + mname}
             for n in g.nodes:
                 if n.stmt is None or not isinstance(n.stmt, ast.stmt) or n.kind in ("with_exit", "handler", "join"):
                     continue
@@ -839,9 +923,10 @@ def r6(ctx):
                     continue
                 if n.kind == "test":
                     test = n.stmt.test
-                    txt = unparse(test)
                     for lab in ("true", "false"):
-                        if (fac.key + "." + mname, txt, lab == "true") in NOOP_BRANCHES:
+                        # the branch outcome IMPLIES a registered no-op condition (whichever way the test is written)
+                        have = {_canon_atom(e, p) for e, p in atom_exprs(test, lab == "true", wenv)}
+                        if have & noop_atoms:
                             cut.add((n.id, lab))
                     if eff[mname] == "add":
                         lab = _membership_outcome(test)
@@ -1012,7 +1097,8 @@ def _marked_in(body, wname, helpers_):
             for tg in st.targets:
                 if isinstance(tg, ast.Attribute) and tg.attr == MARK and isinstance(tg.value, ast.Name) and tg.value.id == wname:
                     return "direct store"
-        if isinstance(st, ast.Expr) and isinstance(st.value, ast.Call) and isinstance(st.value.func, ast.Name) \
+        # `_tidy(w)` / `w = _tidy(w)` / `return _tidy(w)`
+        if isinstance(st, (ast.Expr, ast.Return, ast.Assign)) and isinstance(st.value, ast.Call) and isinstance(st.value.func, ast.Name) \
                 and st.value.func.id in helpers_ and st.value.args \
                 and isinstance(st.value.args[0], ast.Name) and st.value.args[0].id == wname:
             return f"via {st.value.func.id}()"
@@ -1061,7 +1147,7 @@ def r8(ctx):
         inner = c.args[2]
         ctx.require(inner.args, f"{scr.key}: decorator application without argument")
         arg = unparse(inner.args[0])
-        atoms = set(guard_atoms(lexical_guards(pm, c, stop=scr.node)))
+        atoms = set(guard_atoms_at(ctx.cfg(scr), pm, c, env_of(scr.node)))
         ctx.check((f"hasattr({arg}, '{MARK}')", False) in atoms, f"{scr.key}:applies-once",
                   f"`{unparse(c)}` is applied without `not hasattr({arg}, '{MARK}')`: an already instrumented method "
                   "(inherited from an instrumented base class) is wrapped again and fires every event twice",
@@ -1073,7 +1159,7 @@ def r8(ctx):
                 and isinstance(n.targets[0].value, ast.Name) and n.targets[0].value.id == "methods"):
             continue
         role = unparse(n.targets[0].slice)
-        atoms = set(guard_atoms(lexical_guards(pm, n, stop=arr.node)))
+        atoms = set(guard_atoms_at(ctx.cfg(arr), pm, n, env_of(arr.node)))
         n_roles += 1
         ctx.check((f"hasattr(getattr(cls, {role}), '{MARK}')", False) in atoms, f"{arr.key}:{role}:implicit-once",
                   f"implicit instrumentation `{unparse(n)[:70]}` is added without "
@@ -1199,7 +1285,7 @@ def r11(ctx):
                 continue
             g = ctx.cfg(w)
             org = _Origin(w, fnparam)
-            pm = fac.module.parents()
+            pm = parent_map(w)
             for pname, sent in sorted(sentinels.items()):
                 key = f"{fac.key}.{mname}:{pname}:sentinel"
                 loc = f"{fac.module.path}:{w.lineno}"
@@ -1428,8 +1514,8 @@ R.mutant("set-iand-binop-check-args-swapped", COLL,
          "C38-R3")
 # benign
 R.mutant("benign-list-remove-membership-guard", COLL,
-         sub("            __del(self, value, _sa_initiator, NO_KEY)\n            # testlib.pragma exempt:__eq__\n            fn(self, value)\n",
-             "            # testlib.pragma exempt:__eq__\n            if value in self:\n                __del(self, value, _sa_initiator, NO_KEY)\n            # testlib.pragma exempt:__eq__\n            fn(self, value)\n"),
+         sub("            # testlib.pragma exempt:__eq__\n            if value in self:\n                __del(self, value, _sa_initiator, NO_KEY)\n            # testlib.pragma exempt:__eq__\n            fn(self, value)\n",
+             "            is_member = value in self\n            if not is_member:\n                pass\n            else:\n                __del(self, value, _sa_initiator, NO_KEY)\n            fn(self, value)\n"),
          None)
 R.mutant("benign-tidy-marker-any-value", COLL,
          sub("    def _tidy(fn):\n        fn._sa_instrumented = True\n        fn.__doc__ = getattr(dict, fn.__name__).__doc__\n",
@@ -1482,4 +1568,106 @@ R.mutant("benign-ior-delegates-to-update", COLL,
 R.mutant("benign-extra-decorator", COLL,
          sub("    # __imul__ : not wrapping this.",
              "    def copy(fn):\n        def copy(self):\n            return fn(self)\n\n        _tidy(copy)\n        return copy\n\n    # __imul__ : not wrapping this."),
+         None)
+
+
+# -------------------------------------------------------------------------------------- rob-F2: benign refactor families
+def _chain(*edits):
+    def edit(src):
+        for e in edits:
+            src = e(src)
+        return src
+    return edit
+
+
+# family rfF_10: list.__setitem__ slice branch, `stop` if/else inverted; arms of the isinstance test swapped is covered
+# by the CFG; the no-op shortcut written the other way round
+R.mutant("benign-list-setitem-stop-arms-inverted", COLL,
+         sub("                if index.stop is not None:\n                    stop = index.stop\n                else:\n                    stop = len(self)\n",
+             "                if index.stop is None:\n                    stop = len(self)\n                else:\n                    stop = index.stop\n"),
+         None)
+R.mutant("benign-list-setitem-noop-tests-inverted", COLL,
+         sub("                    if value is self:\n                        return\n                    for i in range(start, stop, step):\n                        if len(self) > start:\n                            del self[start]\n\n"
+             "                    for i, item in enumerate(value):\n                        self.insert(i + start, item)\n",
+             "                    if value is not self:\n                        for i in range(start, stop, step):\n                            if start < len(self):\n                                del self[start]\n\n"
+             "                        for i, item in enumerate(value):\n                            self.insert(i + start, item)\n"),
+         None)
+# family rfF_11: dict.pop / setdefault, renamed flag + inverted if/else
+R.mutant("benign-dict-setdefault-arms-inverted", COLL,
+         sub("            if key not in self:\n                self.__setitem__(key, default)\n                return default\n            else:\n                value = self.__getitem__(key)\n                if value is default:\n                    __set_wo_mutation(self, value, None)\n\n                return value\n",
+             "            if key in self:\n                value = self.__getitem__(key)\n                if value is default:\n                    __set_wo_mutation(self, value, None)\n                return value\n            self.__setitem__(key, default)\n            return default\n"),
+         None)
+R.mutant("benign-dict-pop-was-present-inverted", COLL,
+         sub("            _to_del = key in self\n            if default is NO_ARG:\n                item = fn(self, key)\n            else:\n                item = fn(self, key, default)\n            if _to_del:\n                __del(self, item, None, key)\n            return item\n",
+             "            was_present = key in self\n            if default is not NO_ARG:\n                item = fn(self, key, default)\n            else:\n                item = fn(self, key)\n            if not was_present:\n                pass\n            else:\n                __del(self, item, None, key)\n            return item\n"),
+         None)
+# the block repeated in intersection_update/__iand__/symmetric_difference_update/__ixor__ becomes one closure
+_SYNC = ("            remove, add = have - want, want - have\n\n            for item in remove:\n                self.remove(item)\n            for item in add:\n                self.add(item)\n")
+R.mutant("benign-set-sync-block-extracted-to-closure", COLL,
+         _chain(sub("            want, have = self.intersection(other), set(self)\n" + _SYNC, "            _sync_members(self, self.intersection(other))\n", count=2),
+                sub("            want, have = self.symmetric_difference(other), set(self)\n" + _SYNC, "            _sync_members(self, self.symmetric_difference(other))\n", count=2),
+                sub("    def intersection_update(fn):\n",
+                    "    def _sync_members(collection, want):\n        have = set(collection)\n        for item in have - want:\n            collection.remove(item)\n"
+                    "        for item in want - have:\n            collection.add(item)\n\n    def intersection_update(fn):\n"),
+                sub("        _tidy(__ixor__)\n        return __ixor__\n\n    l = locals().copy()\n    l.pop(\"_tidy\")\n",
+                    "        _tidy(__ixor__)\n        return __ixor__\n\n    l = locals().copy()\n    l.pop(\"_tidy\")\n    l.pop(\"_sync_members\")\n")),
+         None)
+# ... and the same closure left in the returned dict (no set method of that name: never applied)
+R.mutant("benign-set-sync-closure-left-in-dict", COLL,
+         _chain(sub("            want, have = self.intersection(other), set(self)\n" + _SYNC, "            _sync_members(self, self.intersection(other))\n", count=2),
+                sub("            want, have = self.symmetric_difference(other), set(self)\n" + _SYNC, "            _sync_members(self, self.symmetric_difference(other))\n", count=2),
+                sub("    def intersection_update(fn):\n",
+                    "    def _sync_members(collection, want):\n        have = set(collection)\n        for item in have - want:\n            collection.remove(item)\n"
+                    "        for item in want - have:\n            collection.add(item)\n\n    def intersection_update(fn):\n")),
+         None)
+# dict.update: the three copies of the store-or-announce block become a closure
+_PUT_OLD = ("                    for key in list(__other):\n                        if key not in self or self[key] is not __other[key]:\n                            self[key] = __other[key]\n"
+            "                        else:\n                            __set_wo_mutation(self, __other[key], None)\n"
+            "                else:\n                    for key, value in __other:\n                        if key not in self or self[key] is not value:\n                            self[key] = value\n"
+            "                        else:\n                            __set_wo_mutation(self, value, None)\n"
+            "            for key in kw:\n                if key not in self or self[key] is not kw[key]:\n                    self[key] = kw[key]\n                else:\n                    __set_wo_mutation(self, kw[key], None)\n")
+_PUT_NEW = ("                    for key in list(__other):\n                        _put(self, key, __other[key])\n"
+            "                else:\n                    for key, value in __other:\n                        _put(self, key, value)\n"
+            "            for key in kw:\n                _put(self, key, kw[key])\n")
+_PUT_DEF = ("    def _put(mapping, key, value):\n        if key in mapping and mapping[key] is value:\n            __set_wo_mutation(mapping, value, None)\n"
+            "        else:\n            mapping[key] = value\n\n    def update(fn):\n        def update(self, __other=NO_ARG, **kw):\n")
+R.mutant("benign-dict-update-put-extracted-to-closure", COLL,
+         _chain(sub(_PUT_OLD, _PUT_NEW),
+                sub("    def update(fn):\n        def update(self, __other=NO_ARG, **kw):\n", _PUT_DEF),
+                sub("        _tidy(__ior__)\n        return __ior__\n\n    l = locals().copy()\n    l.pop(\"_tidy\")\n    return l\n\n\n_set_binop_bases",
+                    "        _tidy(__ior__)\n        return __ior__\n\n    l = locals().copy()\n    l.pop(\"_tidy\")\n    del l[\"_put\"]\n    return l\n\n\n_set_binop_bases")),
+         None)
+# the remove-event loop of the list wrappers in a module function
+R.mutant("benign-list-remove-events-in-module-function", COLL,
+         _chain(sub("                for item in self[index]:\n                    __del(self, item, None, index)\n                fn(self, index)\n",
+                    "                __del_each(self, self[index], index)\n                fn(self, index)\n"),
+                sub("def _list_decorators() -> Dict[str, Callable[[_FN], _FN]]:\n",
+                    "def __del_each(collection, items, key):\n    for item in items:\n        __del(collection, item, None, key)\n\n\n"
+                    "def _list_decorators() -> Dict[str, Callable[[_FN], _FN]]:\n")),
+         None)
+# set in-place operators: the operand check the other way round
+R.mutant("benign-set-ior-binop-check-arms-inverted", COLL,
+         sub("            if not _set_binops_check_strict(self, value):\n                return NotImplemented\n            for item in value:\n                self.add(item)\n            return self\n",
+             "            if _set_binops_check_strict(self, value):\n                for item in value:\n                    self.add(item)\n                return self\n            return NotImplemented\n"),
+         None)
+R.mutant("benign-set-isub-binop-check-flag", COLL,
+         sub("            if not _set_binops_check_strict(self, value):\n                return NotImplemented\n            for item in value:\n                self.discard(item)\n            return self\n",
+             "            compatible = _set_binops_check_strict(self, value)\n            if not compatible:\n                return NotImplemented\n            for item in value:\n                self.discard(item)\n            return self\n"),
+         None)
+# `_tidy` hands the wrapper back: `return _tidy(append)`
+R.mutant("benign-list-tidy-returns-wrapper", COLL,
+         _chain(sub("    def _tidy(fn):\n        fn._sa_instrumented = True\n        fn.__doc__ = getattr(list, fn.__name__).__doc__\n",
+                    "    def _tidy(fn):\n        fn._sa_instrumented = True\n        fn.__doc__ = getattr(list, fn.__name__).__doc__\n        return fn\n"),
+                sub("        _tidy(append)\n        return append\n", "        return _tidy(append)\n"),
+                sub("        _tidy(insert)\n        return insert\n", "        insert = _tidy(insert)\n        return insert\n")),
+         None)
+# _setup_canned_roles: the three conditions as early continues
+R.mutant("benign-canned-roles-early-continue", COLL,
+         sub("            fn = getattr(cls, method, None)\n            if (\n                fn\n                and method not in methods\n                and not hasattr(fn, \"_sa_instrumented\")\n            ):\n                setattr(cls, method, decorator(fn))\n",
+             "            fn = getattr(cls, method, None)\n            if not fn or method in methods:\n                continue\n            already = hasattr(fn, \"_sa_instrumented\")\n            if already:\n                continue\n            setattr(cls, method, decorator(fn))\n"),
+         None)
+# set.add: early exit structure
+R.mutant("benign-dict-setitem-delitem-membership-flag", COLL,
+         sub("        def __delitem__(self, key, _sa_initiator=None):\n            if key in self:\n                __del(self, self[key], _sa_initiator, key)\n            fn(self, key)\n",
+             "        def __delitem__(self, key, _sa_initiator=None):\n            if key not in self:\n                fn(self, key)\n                return\n            leaving = self[key]\n            __del(self, leaving, _sa_initiator, key)\n            fn(self, key)\n"),
          None)
